@@ -578,6 +578,10 @@ def tame(fname, args):
                 args[ix] = N(10 ** 6 if args[ix]['n'] > 0 else -(10 ** 6))
             if isinstance(args[ix], dict) and 'f' in args[ix] and args[ix]['f'] in ('1e300', 'inf', '-inf', 'nan'):
                 args[ix] = N(5)
+    if fname in ('mathRound', 'numberToFixed') and len(args) >= 2 and isinstance(args[1], dict) and 'n' in args[1] and args[1]['n'] > 400:
+        # inside F15 territory anyway: with an int digit count `10 ** digits` is an exact integer - 10 ** 100000000000000 never finishes
+        # (the float spelling overflows to null at once); keep the exponent small enough to terminate
+        args[1] = N(400)
     for ix in SIZE_ARGS.get(fname, ()):
         if ix < len(args) and isinstance(args[ix], dict) and 'n' in args[ix] and args[ix]['n'] > 3000:
             args[ix] = N(3000 if fname != 'jsonStringify' else 40)
@@ -988,7 +992,7 @@ def streams(ctx):
         for _ in range(per_fn * (3 if fname in MODELLED or fname in ('mathRound', 'numberToFixed', 'datetimeNew', 'jsonStringify') else 1)):
             case, how = gen_case(rng, fname, models)
             check_case(ctx, lim, st, case, how)
-            if fname in MODELLED and len(modelled_cases) < ctx.scale(4000, 60000) and model_expressible(case):
+            if fname in MODELLED and len(modelled_cases) < ctx.scale(4000, 40000) and model_expressible(case):
                 modelled_cases.append(case)
 
     # --- operators
@@ -1065,4 +1069,6 @@ LEVEL_TEXT = ('Theorems (all arguments, all argument-model tables): for the host
 LEVEL_NOTE = ('proof for the host-level subset (index/count/size/radix/char-code users); translation-validation strength for the remaining library '
               'functions, where numbers only flow into comparison/arithmetic/stringification and Python int-vs-float mixed operations are exact on '
               'the values (assumption, DESIGN 6) - those are covered by the libnum/operators/script streams, not by a theorem. The model is by-value '
-              '(no aliasing); IEEE rounding enters only as the abstract function rnd in roundNumber_refines. Known: F15.')
+              '(no aliasing); IEEE rounding enters only as the abstract function rnd in roundNumber_refines. Known: F15. Observation, outside the '
+              'quantifier: -0.0 (not float(n) of any int n; equal to 0 by value_compare) prints as "-0" where the int 0 prints "0" (value.py:70), '
+              'reachable as -x / x * -1 on a float zero; results are compared by value, so it is not flagged.')
